@@ -10,16 +10,20 @@ from ..contracts import *  # noqa: F401,F403
 from ..loader import AnalysisError
 from ..report import Result, VERIF
 
-TECHNIQUE = ("abstract interpretation of the table lookup / forward / reversed formula as polynomial identities; "
+TECHNIQUE = ("abstract interpretation of converters built by the evaluated constructor and called for every ordered pair "
+             "of units (forward / reversed formula as polynomial identities), end to end through a registered converter; "
              "exact evaluation of the six temperature rows (pairwise inverse, triangles, fixed points)")
 
 
 def run(prog, tier) -> Result:
     res = Result("C14")
     res.explanation = (
-        "R14.1: TableConverter._get_factor is evaluated abstractly with a symbolic table: a row for (from, to) gives "
-        "factor*amount + offset; otherwise a row for (to, from) gives an expression r(amount) for which r(f*a + o) = a "
-        "holds as a polynomial identity (exact inverse); no row gives None. R14.2: Converter.__call__ outcomes. "
+        "R14.1: table converters are built by the evaluated constructor from tables with symbolic factors and offsets "
+        "(given as mapping, read-only mapping, list, tuple; one or both directions tabulated) and called for every "
+        "ordered pair of four units: a row for (from, to) gives factor*amount + offset; otherwise a row for (to, from) "
+        "gives an expression r(amount) for which r(f*a + o) = a holds as a polynomial identity (exact inverse); no row "
+        "gives None (rows are not chained); the same unit gives the amount. R14.2: unit of another type; a table "
+        "converter registered through the public API drives convert, ==, <, >= and + with exactly these amounts. "
         "R14.3: the six temperature rows are folded exactly from predefined.py: pairwise inverse, all three "
         "triangles compose to the direct row, fixed points against an independent table. R14.4: converters are "
         "consulted only when no linear factor exists and None maps to UnitConversionError; ==, ordering, + use the "
@@ -27,30 +31,73 @@ def run(prog, tier) -> Result:
     res.trusted = ["oracle/temperature.json", "exact Decimal/Fraction arithmetic"]
     cr = CaseRunner(prog, res, max_depth=8 if tier == "quick" else 12)
     tc = prog.cls("TableConverter")
-    from ..anchors import table_lookup_method
-    gf = table_lookup_method(prog)
+    # ---- R14.1 / R14.2 / R14.5: converters are built by the evaluated constructor from a table given as a mapping,
+    # a read-only mapping, a list or a tuple of rows, and then *called* for every ordered pair of units - nothing here
+    # names how the table is stored.  Rows: u1->u2 (f12, o12), u2->u3 (f23, o23); "both": also u2->u1 (g21, p21).
+    from ..interp import Frame
+    from ..models import DictV
+    call = prog.method("Converter", "__call__")
 
-    def setup_tc(c):
+    def build(c, form, both=False, kinds=("frac", "dec", "dec", "frac")):
         c.new_type("T", **FLAVORS["noref"])
-        conv = ObjV(tc, "conv")
-        return [conv, c.qty("self", c.unit("us", "T")), c.unit("uo", "T")], {}
+        # units without definition: no linear factor between them, only the table relates them
+        us = {n: c.unit(n, "T", kind="base") for n in ("u1", "u2", "u3", "u4")}
+        names = list(us)
+        for a_ in range(len(names)):
+            for b_ in range(a_ + 1, len(names)):
+                c.st.distinct_units(names[a_], names[b_])
+        rows = [("u1", "u2", c.num("f12", kinds[0]), c.num("o12", kinds[1])), ("u2", "u3", c.num("f23", kinds[2]), c.num("o23", kinds[3]))]
+        if both:
+            rows.append(("u2", "u1", c.num("g21", "frac"), c.num("p21", "dec")))
+        if form in ("mapping", "read-only mapping"):
+            tbl = DictV([(TupleV([us[a_], us[b_]]), TupleV([f_, o_])) for a_, b_, f_, o_ in rows])
+            if form == "read-only mapping":
+                tbl.readonly = True        # a Mapping that is not a MutableMapping (MappingProxyType, user class)
+        elif form == "list":
+            tbl = ListV([TupleV([us[a_], us[b_], f_, o_]) for a_, b_, f_, o_ in rows])
+        elif form == "tuple":
+            tbl = TupleV([TupleV([us[a_], us[b_], f_, o_]) for a_, b_, f_, o_ in rows])
+        else:
+            tbl = c.num("x", "int")
+        I = c.m.I
+        I.frames.append(Frame(None, prog.modules["quantity"], None, {}))
+        try:
+            conv = c.m.instantiate(tc, [tbl], {}, None)
+        finally:
+            I.frames.pop()
+        c.st.c14 = {"rows": {(a_, b_): (f_.rf, o_.rf) for a_, b_, f_, o_ in rows}, "units": us}
+        return conv, us
 
-    def judge_tc(o):
+    def setup_pair(form, frm, to, both=False, kinds=("frac", "dec", "dec", "frac")):
+        def setup(c):
+            try:
+                conv, us = build(c, form, both, kinds)
+            except AbsRaise:
+                raise Infeasible        # the constructor rejects the table: reported by the constructor case below
+            c.st.c14["pair"] = (frm, to)
+            return [conv, c.qty("self", us[frm]), us[to]], {}
+        return setup
+
+    def judge_pair(o):
         st = o.state
+        info = st.c14
+        frm, to = info["pair"]
+        rows = info["rows"]
+        a = RF.atom(("a", "self"))
         if o.kind == "raise":
             return (exc_sig(o), "contract: amount or None")
-        a, b = st.ufind(o.args[1].unit.uid), st.ufind(o.args[2].uid)
         v = o.value
-        amt = RF.atom(("a", "self"))
-        fwd = any(t.startswith(f"convtable[({a},{b})]=row") for t in o.trace)
-        rev = any(t.startswith(f"convtable[({b},{a})]=row") for t in o.trace)
-        if fwd:
-            want = RF.atom(("tf", a, b)) * amt + RF.atom(("to", a, b))
-            return judge_num(o, want)
-        if rev:
+        if frm == to:
+            return judge_num(o, a)
+        if (frm, to) in rows:
+            f, off = rows[(frm, to)]
             if not isinstance(v, Num):
-                return ("reverse row not used", repr(v))
-            f, off = RF.atom(("tf", b, a)), RF.atom(("to", b, a))
+                return ("tabulated direction not used", repr(v))
+            return judge_num(o, f * a + off)
+        if (to, frm) in rows:
+            f, off = rows[(to, frm)]
+            if not isinstance(v, Num):
+                return ("opposite direction not used", repr(v))
             # r(f*x + o) == x as a polynomial identity
             x = RF.atom(("x",))
             r_at = st.norm(v.rf).subst({("a", "self"): f * x + off})
@@ -58,76 +105,115 @@ def run(prog, tier) -> Result:
                 return ("reversed formula is not the exact inverse", f"r(f*x+o) = {r_at!r}")
             return None
         if not isinstance(v, NoneV):
-            return ("value without a table row", repr(v))
-        asked = {t.split("=")[0] for t in o.trace if t.startswith("convtable[(")}
-        if a != b and asked != {f"convtable[({a},{b})]", f"convtable[({b},{a})]"}:
-            return ("gives up without looking for the opposite direction", f"lookups: {sorted(asked)}")
+            return ("value without a table row", f"{frm}->{to}: {v!r} (no row in either direction; rows are not chained)")
         return None
-    cr.run("R14.1", gf, "symbolic table, distinct units", setup_tc, judge_tc)
+    PAIRS = [("u1", "u2"), ("u2", "u1"), ("u2", "u3"), ("u3", "u2"), ("u1", "u3"), ("u3", "u1"), ("u1", "u4"), ("u1", "u1")]
+    for form in ("mapping", "read-only mapping", "list", "tuple"):
+        for frm, to in (PAIRS if form in ("mapping", "list") else PAIRS[:2] + PAIRS[4:5]):
+            cr.run("R14.1" if form in ("mapping", "list") else "R14.5", call, f"table as {form}, {frm}->{to}",
+                   setup_pair(form, frm, to), judge_pair)
+    # both directions tabulated: each direction uses its own row
+    for frm, to in (("u1", "u2"), ("u2", "u1")):
+        cr.run("R14.1", call, f"both directions tabulated, {frm}->{to}", setup_pair("list", frm, to, both=True), judge_pair)
 
-    call = prog.method("Converter", "__call__")
+    # factors and offsets given as plain ints (ints are rationals): results stay exact in both directions
+    for frm, to in (("u1", "u2"), ("u2", "u1"), ("u3", "u2")):
+        cr.run("R14.1", call, f"int factors and offsets, {frm}->{to}", setup_pair("list", frm, to, kinds=("int",) * 4), judge_pair)
 
-    def setup_call(kind):
+    # the constructor accepts every table form
+    def setup_ctor(form):
         def setup(c):
             c.new_type("T", **FLAVORS["noref"])
-            conv = ObjV(tc, "conv")
-            us = c.unit("us", "T")
-            if kind == "same unit":
-                return [conv, c.qty("self", us), us], {}
-            if kind == "same type":
-                uo = c.unit("uo", "T")
-                c.st.distinct_units("us", "uo")
-                return [conv, c.qty("self", us), uo], {}
-            c.new_type("T2")
-            c.st.distinct_types("T", "T2")
-            return [conv, c.qty("self", us), c.unit("uo", "T2")], {}
-        return setup
-    cr.run("R14.2", call, "same unit", setup_call("same unit"),
-           lambda o: (exc_sig(o), "") if o.kind == "raise" else judge_num(o, RF.atom(("a", "self"))))
-    cr.run("R14.2", call, "same type", setup_call("same type"), judge_tc)
-    cr.run("R14.2", call, "other type", setup_call("other type"),
-           lambda o: expect_raise(o, ["IncompatibleUnitsError"]))
-
-    # R14.5 constructor layouts
-    init = prog.method("TableConverter", "__init__")
-
-    def setup_init(kind):
-        def setup(c):
-            from ..models import DictV
-            c.new_type("T", **FLAVORS["noref"])
-            u1, u2 = c.unit("u1", "T"), c.unit("u2", "T")
-            f, off = c.num("f", "frac"), c.num("o", "dec")
-            me = ObjV(tc, "conv")
-            if kind in ("mapping", "read-only mapping"):
-                tbl = DictV([(TupleV([u1, u2]), TupleV([f, off]))])
-                if kind == "read-only mapping":
-                    tbl.readonly = True        # a Mapping that is not a MutableMapping (MappingProxyType, user class)
-            elif kind == "list":
-                tbl = ListV([TupleV([u1, u2, f, off])])
+            u1, u2 = c.unit("u1", "T", kind="base"), c.unit("u2", "T", kind="base")
+            c.st.distinct_units("u1", "u2")
+            f_, o_ = c.num("f12", "frac"), c.num("o12", "dec")
+            if form in ("mapping", "read-only mapping"):
+                tbl = DictV([(TupleV([u1, u2]), TupleV([f_, o_]))])
+                tbl.readonly = form == "read-only mapping"
+            elif form == "list":
+                tbl = ListV([TupleV([u1, u2, f_, o_])])
             else:
-                tbl = c.num("x", "int")
-            return [me, tbl], {}
+                tbl = TupleV([TupleV([u1, u2, f_, o_])])
+            return [ObjV(tc, "conv"), tbl], {}
+        return setup
+    for form in ("mapping", "read-only mapping", "list", "tuple"):
+        cr.run("R14.5", prog.method("TableConverter", "__init__"), f"constructor accepts a {form}", setup_ctor(form),
+               lambda o: (exc_sig(o), "a valid conversion table is rejected") if o.kind == "raise" else None)
+
+    def setup_other(c):
+        conv, us = build(c, "list")
+        c.new_type("T2")
+        c.st.distinct_types("T", "T2")
+        return [conv, c.qty("self", us["u1"]), c.unit("uo", "T2")], {}
+    cr.run("R14.2", call, "unit of another type", setup_other, lambda o: expect_raise(o, ["IncompatibleUnitsError"]))
+
+    def setup_bad(c):
+        c.new_type("T", **FLAVORS["noref"])
+        return [ObjV(tc, "conv"), c.num("x", "int")], {}
+    cr.run("R14.5", prog.method("TableConverter", "__init__"), "conv_table is neither mapping nor iterable", setup_bad,
+           lambda o: expect_raise(o, ["TypeError"]))
+
+    # ---- R14.2 end to end: a table converter registered for its type through the public API, then convert / == / < / +
+    greg = prog.method("QuantityMeta", "register_converter")
+
+    def setup_e2e(kind):
+        def setup(c):
+            conv, us = build(c, "list")
+            tid = c.st.tfind("T")
+            c.st.concrete_registries = True     # the registry starts as the metaclass creates it (empty)
+            I = c.m.I
+            I.frames.append(Frame(None, prog.modules["quantity"], None, {}))
+            try:
+                I.call_function(greg, [ClsV(tid), conv], {})
+            except AbsRaise:
+                raise AnalysisError("C14: register_converter(TableConverter) raises")
+            finally:
+                I.frames.pop()
+            q1 = c.qty("self", us["u1"])
+            if kind in ("convert", "convert-reverse", "convert-none"):
+                tgt = {"convert": "u2", "convert-reverse": "u1", "convert-none": "u3"}[kind]
+                if kind == "convert-reverse":
+                    q1 = c.qty("self", us["u2"])
+                return [q1, us[tgt]], {}
+            return [q1, c.qty("other", us["u2"])], {}
         return setup
 
-    def judge_init(kind):
+    def judge_e2e(kind):
         def judge(o):
-            if kind == "other":
-                return expect_raise(o, ["TypeError"])
+            st = o.state
+            rows = st.c14["rows"]
+            f, off = rows[("u1", "u2")]
+            a, b = RF.atom(("a", "self")), RF.atom(("a", "other"))
+            if kind == "convert-none":
+                return expect_raise(o, ["UnitConversionError"])
             if o.kind == "raise":
-                return (exc_sig(o), "")
-            from ..models import DictV
-            me = o.args[0]
-            m = me.fields.get("_unit_map")
-            if not isinstance(m, DictV) or len(m.items) != 1:
-                return ("table not stored", repr(m))
-            k, v = m.items[0]
-            ok = isinstance(k, TupleV) and [getattr(x, "uid", None) for x in k.items] == ["u1", "u2"] and \
-                isinstance(v, TupleV) and len(v.items) == 2 and \
-                v.items[0].rf.equals(RF.atom(("k", "f"))) and v.items[1].rf.equals(RF.atom(("k", "o")))
-            return None if ok else ("table layout differs from ((from, to) -> (factor, offset))", f"{k!r} -> {v!r}")
+                return (exc_sig(o), "contract: result through the registered table converter")
+            v = o.value
+            if kind == "convert":
+                return judge_qty(o, unit=o.args[1], tid="T", amount=f * a + off)
+            if kind == "convert-reverse":
+                return judge_qty(o, unit=o.args[1], tid="T", amount=(a - off) / f)
+            if kind == "__add__":
+                return judge_qty(o, unit=o.args[0].unit, tid="T", amount=a + (b - off) / f)
+            # comparisons: the other operand expressed in self's unit: (b - off) / f
+            want_op = {"__eq__": "==", "__lt__": "<", "__ge__": ">="}[kind]
+            other_in_self = (b - off) / f
+            if isinstance(v, BoolV):
+                t = known_truth(st, CmpV(want_op, Num(a, "exact"), Num(other_in_self, "exact")))
+                if t is None:
+                    return ("comparison decided without comparing the converted amounts", repr(v))
+                return None if t == v.val else ("comparison disagrees with the table conversion", f"{v!r}")
+            if isinstance(v, CmpV):
+                l_, r_ = st.norm(v.l.rf), st.norm(v.r.rf)
+                if v.op == want_op and l_.equals(a) and st.norm(r_).equals(st.norm(other_in_self)):
+                    return None
+                return ("comparison is not <amount> op <other amount converted by the table>", repr(v))
+            return ("no comparison result", repr(v))
         return judge
-    for kind in ("mapping", "read-only mapping", "list", "other"):
-        cr.run("R14.5", init, f"conv_table as {kind}", setup_init(kind), judge_init(kind))
+    Qm = lambda n: prog.method("Quantity", n)
+    for kind, fn in (("convert", Qm("convert")), ("convert-reverse", Qm("convert")), ("convert-none", Qm("convert")),
+                     ("__eq__", Qm("__eq__")), ("__lt__", Qm("__lt__")), ("__ge__", Qm("__ge__")), ("__add__", Qm("__add__"))):
+        cr.run("R14.2", fn, f"registered table converter: {kind}", setup_e2e(kind), judge_e2e(kind), site=f"Quantity.{fn.name}")
 
     # R14.4 fallback order and error class for reference-less types (temperature-like)
     Q = lambda n: prog.method("Quantity", n)
@@ -232,9 +318,9 @@ def run(prog, tier) -> Result:
     if len(rows) < 6 or n_fp < 12:
         raise AnalysisError(f"temperature table: {len(rows)} rows, {n_fp} fixed-point checks (6 / 12 confirmed)")
 
-    res.require("R14.1", 1)
-    res.require("R14.2", 3)
+    res.require("R14.1", 21)
+    res.require("R14.2", 8)
     res.require("R14.3", 20)
     res.require("R14.4", 7)
-    res.require("R14.5", 4)
+    res.require("R14.5", 11)
     return res
